@@ -206,7 +206,7 @@ def r5_for(run, b, AP):
     if w is None:
         run.missing("%s|id-assignment" % AP, "append does not assign frame.id", b.sp)
         return
-    uses = [c for c in b.calls() if c.bb in b.live_blocks() and c.bb != w[0] and c.fn in (C.INSERT_FRAME, C.BROADCAST_SEND, C.HASHSET_INSERT, "xs::store::idx_topic_key_from_frame")]
+    uses = [c for c in b.calls() if c.bb in b.live_blocks() and c.bb != w[0] and c.fn in (C.INSERT_FRAME, C.BROADCAST_SEND) + C.SET_INSERT + ("xs::store::idx_topic_key_from_frame",)]
     run.floor("uses of the frame in append after id assignment", len(uses), 3, b.sp)
 
     def value_unused(c):
